@@ -199,6 +199,32 @@ def run_case(case):
                 bad = bad & ~sat
                 if not bad.any():
                     continue
+            else:
+                # directly drawn y (no x whose forward log-det could tell): the same saturation test on a probe grid through the
+                # input domain with the item's own identity features / context - conditioner outputs that spread the softmax
+                # logits by 60 leave bins of mass 1e-27, the cumulative sums are flat there in float64 and an end-point y has no
+                # floating-point pre-image (the piecewise-linear spline has no floor; see DESIGN section 9, C09 `huge`)
+                try:
+                    sat = torch.zeros(B, dtype=torch.bool)
+                    dom = me["dom_in"]
+                    lo_p, hi_p = (dom[1], dom[2]) if dom[0] == "box" else ((-dom[1], dom[1]) if dom[0] == "Rb" else (-6.0, 6.0))
+                    if cfg.get("tails") and "B" in cfg:
+                        lo_p, hi_p = -float(cfg["B"]), float(cfg["B"])
+                    for t_ in torch.linspace(0.0, 1.0, 33).tolist():
+                        xp = torch.full_like(yy, lo_p + (hi_p - lo_p) * t_)
+                        if "mask" in cfg:
+                            idc = [i for i, v in enumerate(cfg["mask"]) if not v > 0]
+                            xp[:, idc] = yy[:, idc]
+                        with torch.no_grad():
+                            lp_ = model(xp, ctx)[1]
+                        sat = sat | (lp_ < -(25.0 + 3.0 * yy[0].numel())) | ~torch.isfinite(lp_)
+                    if (bad & sat).any():
+                        r.count("skipped_saturated_items", int((bad & sat).sum()))
+                    bad = bad & ~sat
+                    if not bad.any():
+                        continue
+                except Exception:
+                    pass
             k = int(bad.nonzero()[0])
             emit(r, "nonfinite", "%s inverse returns non-finite numbers" % fam, cubic_nu, policy=pol, world=world,
                  cfg=cfg, y=yy[k].reshape(-1)[:8], direction=label)
